@@ -1,6 +1,7 @@
 // C11 - Blake2b and the commitment function conform to RFC 7693.
 // Oracle: model/ref_blake2b (written from the RFC, anchored to the RFC vector and CPython hashlib).
 #include "harness/vh.hpp"
+#include <sys/mman.h>
 #include "gen/gens.hpp"
 #include "ref_blake2b.hpp"
 #include "blake2/blake2.h"
@@ -181,6 +182,35 @@ static std::string bigstream(const BigCase& c) {
 	return "";
 }
 
+// one message of more than 4 GiB handed over in ONE call (one-shot function; and a single update after a short one): 32-bit
+// length/offset arithmetic inside a call is invisible to any chunked stream. The message lives in an untouched anonymous
+// mapping (shared zero page) with pseudo-random content scribbled over the first and last MiB and ~200 scattered pages, so
+// it is not periodic with any period dividing 2^32 and costs a few MiB of memory.
+static std::string bigshot(const BigCase& c) {
+	const uint64_t total = c.total;
+	uint8_t* m = (uint8_t*)mmap(nullptr, total, PROT_READ | PROT_WRITE, MAP_PRIVATE | MAP_ANONYMOUS | MAP_NORESERVE, -1, 0);
+	if (m == MAP_FAILED) return "";   // cannot be set up here: nothing is claimed (counted by the label below not being set)
+	vh::XorShift x(c.seed);
+	x.fill(m, 1 << 20); x.fill(m + total - (1 << 20), 1 << 20);
+	for (int i = 0; i < 200; ++i) { uint64_t off = x.next() % (total - 4096); x.fill(m + off, 1 + x.next() % 4000); }
+	const unsigned outlen = 1 + (unsigned)(c.seed % 64);
+	uint8_t exp[64], a[64], b[64];
+	{ ref::Blake2b R; R.init(outlen); for (uint64_t done = 0; done < total;) { uint64_t n = std::min<uint64_t>(total - done, 1 << 24); R.update(m + done, n); done += n; } R.final(exp); }
+	std::string err;
+	if (blake2b(a, outlen, m, total, nullptr, 0) != 0) err = "one-shot call rejected a > 4 GiB message";
+	else if (memcmp(a, exp, outlen) != 0) err = "one-shot digest of a " + std::to_string(total) + "-byte message differs from the model (outlen " + std::to_string(outlen) + ")";
+	if (err.empty()) {
+		const size_t k = 1 + (size_t)(c.seed >> 8) % 300;
+		blake2b_state S; blake2b_init(&S, outlen); blake2b_update(&S, m, k); blake2b_update(&S, m + k, total - k); blake2b_final(&S, b, outlen);
+		if (memcmp(b, exp, outlen) != 0) err = "update(" + std::to_string(k) + ") + update(rest) of a " + std::to_string(total) + "-byte message differs from the model";
+	}
+	munmap(m, total);
+	if (!err.empty()) return err;
+	vh::label("single-call>4GiB");
+	vh::nontrivial(vh::mix(c.total, c.seed));
+	return "";
+}
+
 int main(int argc, char** argv) {
 	using namespace rc;
 	vh::registerCheck<BCase>("oneshot", [] { return genB(false, false); }, oneshot);
@@ -195,5 +225,8 @@ int main(int argc, char** argv) {
 	vh::registerCheck<BigCase>("bigstream", [] {
 		return gen::apply([](uint64_t extra, uint64_t seed) { return BigCase{((uint64_t)1 << 32) + extra % (1 << 24), seed}; }, gen::arbitrary<uint64_t>(), gen::arbitrary<uint64_t>());
 	}, bigstream);
+	vh::registerCheck<BigCase>("bigshot", [] {
+		return gen::apply([](uint64_t extra, uint64_t seed) { return BigCase{((uint64_t)1 << 32) + 257 + extra % (1 << 22), seed}; }, gen::arbitrary<uint64_t>(), gen::arbitrary<uint64_t>());
+	}, bigshot, true, nullptr, 1);
 	return vh::harnessMain(argc, argv);
 }
